@@ -140,6 +140,7 @@ class Program:
         self.functions: Dict[str, FunctionInfo] = {}
         self.classes: Dict[str, ClassInfo] = {}
         self._load()
+        self._flatten_inheritance()
         self._resolve_cache: Dict[Tuple[str, str], object] = {}
 
     # ------------------------------------------------------------------ loading
@@ -190,6 +191,36 @@ class Program:
             m = ModuleInfo(modname, os.path.join(self.repo, rel), rel, src, tree)
             self.modules[modname] = m
             self._index_module(m)
+
+    def _flatten_inheritance(self):
+        """A repo class that inherits from repo classes (mixins that hold groups of its methods) is analysed with the
+        inherited methods as its own: each inherited method is re-registered under the subclass (same AST node, the subclass as
+        owner), following the method resolution order left to right, depth first."""
+        by_name: Dict[str, List[ClassInfo]] = {}
+        for c in self.classes.values():
+            by_name.setdefault(c.name, []).append(c)
+
+        def bases_of(c: ClassInfo, seen):
+            out = []
+            for b in c.bases:
+                nm = b.split(".")[-1]
+                cands = by_name.get(nm, [])
+                if len(cands) == 1 and cands[0].qualname not in seen:
+                    seen.add(cands[0].qualname)
+                    out.append(cands[0])
+                    out += bases_of(cands[0], seen)
+            return out
+
+        for c in list(self.classes.values()):
+            for b in bases_of(c, {c.qualname}):
+                for name, fi in list(b.methods.items()):
+                    if name in c.methods or fi.cls is not b:
+                        continue
+                    q = f"{c.qualname}.{name}"
+                    if q in self.functions:
+                        continue
+                    clone = self._mk_function(fi.module, fi.node, q, c, None)
+                    c.methods[name] = clone
 
     def _index_module(self, m: ModuleInfo):
         for st in m.tree.body:
@@ -361,6 +392,26 @@ class Program:
         ]
         if len(hits) == 1:
             return hits[0]
+        # the module still offers the name, but as a re-export of a function that now lives elsewhere
+        # (`from ._impl import degree` after a module was split)
+        if not hits:
+            for m in self.modules.values():
+                if m.name.split(".")[-1] != head:
+                    continue
+                b = m.imports.get(tail)
+                seen = 0
+                while b is not None and b[0] == "symbol" and seen < 4:
+                    seen += 1
+                    src = self.modules.get(b[1]) or self.modules.get(b[1] + ".__init__")
+                    cand = [f for f in self.functions.values() if f.cls is None and f.parent is None and f.name == b[2] and src is not None and f.module is src]
+                    if len(cand) == 1:
+                        return cand[0]
+                    b = src.imports.get(b[2]) if src is not None else None
+                for base in m.star_imports:
+                    src = self.modules.get(base)
+                    cand = [f for f in self.functions.values() if f.cls is None and f.parent is None and f.name == tail and src is not None and f.module is src]
+                    if len(cand) == 1:
+                        return cand[0]
         # nested: 'mod.outer.<locals>.inner'
         hits = [f for f in self.functions.values() if f.short == dotted]
         if len(hits) == 1:
